@@ -266,6 +266,17 @@ def c14(report):
                 bkw["n_jobs"] = 1
     ecf.defer(xjobs, by_clause("cross.", "call.exception"))
     ecf.flush(report)
+    # recorded executions with a binarizer installed: the stored (converted) rewards and every query result are validated
+    # by TraceNbhd.tla, whose history carries Binz(binarizer, arm, reward) applied exactly once
+    nps = ["radius", "knearest", "lsh", "clusters", "tree"]
+    variants = {np_: [dict(NB_VARIANTS[np_][(report.seed + j) % len(NB_VARIANTS[np_])], init_bin=b)
+                      for j, b in enumerate(["thr", "ge2"] if report.tier == "quick" else ["thr", "ge2", "flip"])] for np_ in nps}
+    for vs in variants.values():
+        for v in vs:
+            v.pop("unit", None)
+            v.pop("no_nhood", None)
+    njobs = enb.jobs_for(nps, ["ts"], report.tier, report.seed, variants, n=10 if report.tier == "quick" else 30)
+    enb.run_jobs(report, njobs, lambda f: f["clause"].startswith(("trace.", "result.nbhd", "call.exception")))
     _nontrivial_from_counts(report, "cf.op.partial_fit")
 
 
